@@ -241,11 +241,14 @@ func runOneProc(c Case, sdir, scratch, path string, vals []interface{}, vids []i
 			if _, err := fmt.Sscanf(lines[i], "%d %d %d %d", &n, &e, &r1, &r2); err != nil || n != i {
 				return Obs{Err: "one-process history child: bad report line " + lines[i]}
 			}
-			if r1 != r2 {
-				return Obs{Err: fmt.Sprintf("step %d: the getter of the long-lived store object and a fresh one disagree (%d / %d)", i, r1, r2)}
-			}
+			// the getter of the long-lived object and of a fresh one: both are judged (a store object that
+			// answers from what it remembers instead of from the file shows here)
+			so.Read2 = -1
 			if r1 >= 0 {
-				so.Read = vids[r1]
+				so.Read2 = vids[r1]
+			}
+			if r2 >= 0 {
+				so.Read = vids[r2]
 			}
 			fb, _ := os.ReadFile(filepath.Join(scratch, fmt.Sprintf("file%d", i)))
 			so.File = hexOf(fb)
@@ -259,6 +262,7 @@ func runOneProc(c Case, sdir, scratch, path string, vals []interface{}, vids []i
 			if j := classifyVal(got, err, vals); j >= 0 {
 				so.Read = vids[j]
 			}
+			so.Read2 = so.Read
 		} else {
 			return Obs{Err: fmt.Sprintf("one-process history child ended (%s) before step %d", end, i)}
 		}
